@@ -20,6 +20,19 @@ T = {
             "decision-table extraction + relational (sibling) cross-check between two derived tables"),
 }
 
+T.update({
+    "C02": ("proof", "Inductive step for invariant I2 and equality with the reference model from every abstract membership pre-state (object classes incl. nested and self-member universes, opaque list segments), all four calls from either side, constructors with repeated elements given as list/tuple/one-shot iterator; raise => unchanged.", "5/C02",
+            "abstract interpretation (inductive invariant step + reference transformer)"),
+    "C05": ("proof", "Query side: every neighbors() table row with caching off/cold/warm, semantic memo-key completeness over ordered pairs of settings; invalidation: ghost memo entry on every C01/C03 obligation with the flag on and off during the mutation (stale entry must be gone wherever the neighbour signature changed); registry scripts on objects with empty class-level state; traversals reach the graph only through neighbors().", "5/C05",
+            "abstract interpretation with ghost state over the inductive mutator obligations + call-graph rule"),
+    "C06": ("exploration", "Bounded-exhaustive abstract evaluation of all six traversal functions over every neighbour map of a small scope plus a fixed-seed family of larger maps, against the reachability closure and the reference search schemas; forwarding of settings to neighbors() checked at the call interface.", "5/C06",
+            "small-scope abstract evaluation of whole functions against a reference schema (neighbors() stubbed at its interface)"),
+    "C07": ("exploration", "Same sweep as C06 comparing the listed sequence with canonical FIFO-BFS / pre-order DFS / mark-on-pop stack DFS; DET rule (no unordered or random source in order-defining code).", "5/C07",
+            "small-scope abstract evaluation against reference search schemas + determinism lint on the traversal modules"),
+    "C19": ("proof", "Inductive step for I19 against the partial-bijection model from every consistent binding of 2 universes x 3 law sets, every assignment from either side incl. None, and universe construction; rule attributes read back and reject assignment.", "5/C19",
+            "abstract interpretation (inductive invariant step + reference model)"),
+})
+
 REASONS_PENDING = "check under construction in this build phase (see DESIGN.md section 5 for the planned static rule)"
 
 
